@@ -2,12 +2,12 @@
 From Coq Require Import List NArith Bool.
 From Frugal Require Import Bytes Wire Skip Values Desc Spec Encode Decode Checks Tags State Bitset Alloc DescMap Conc LegacyDefs.
 From Frugal.gen Require Import Params.
-From Frugal.proofs Require Import GenParams GenTables SizeExact BufferContract.
+From Frugal.proofs Require Import GenEncParams GenTables SizeExact BufferContract.
 From Frugal.props Require Import Examples.
 Import ListNotations.
 
 Theorem C04_size_exact : forall env sid v,
-  params_ok = true -> tables_ok = true -> env_ok env = true -> has_type env (TStruct sid) v = true ->
+  enc_params_ok = true -> tables_ok = true -> env_ok env = true -> has_type env (TStruct sid) v = true ->
   encoded_size env sid v = len (append_struct env sid v).
 Proof. exact size_exact. Qed.
 Print Assumptions C04_size_exact.
@@ -31,5 +31,5 @@ Proof. split; [vm_compute; reflexivity | eexists; vm_compute; reflexivity]. Qed.
 
 (* the side conditions on the generated constants and tables that the theorems above assume hold
    for what the translator read from the sources of this run *)
-Theorem C04_side_conditions : params_ok = true /\ tables_ok = true.
-Proof. split; [exact params_ok_holds | exact tables_ok_holds]. Qed.
+Theorem C04_side_conditions : enc_params_ok = true /\ tables_ok = true.
+Proof. split; [exact enc_params_ok_holds | exact tables_ok_holds]. Qed.
